@@ -1,9 +1,9 @@
 /-
 Helper lemmas for C19, top file: outcome tables, the bundle theorem for the bounded regimes, conversion of
 sort-key statements to float comparisons, the link `key = FP.ord`, well-formedness of the three dtypes.
-(Parts: SamplesCore, SamplesBounded, SamplesStraddle, SamplesUnbounded, SamplesAll, SamplesProducts.)
+(Parts: SamplesCore, SamplesBounded, SamplesStraddle, SamplesUnbounded, SamplesAll, SamplesRange, SamplesProducts.)
 -/
-import FAVerif.Lemmas.SamplesAll
+import FAVerif.Lemmas.SamplesRange
 import FAVerif.Lemmas.SamplesProducts
 namespace FAVerif.Samples
 open FAVerif.FP
@@ -16,43 +16,6 @@ instance exceptDecEq {ε α} [DecidableEq ε] [DecidableEq α] : DecidableEq (Ex
   | .error _, .ok _ => isFalse (by intro e; cases e)
 
 /-! ### outcome as a function of `num` -/
-
-theorem finish_nil (c : Cfg) (p : Params) : finish c p [] = [] := by
-  rw [finish_eq]; split <;> rfl
-
-theorem sameSignPos_small (c : Cfg) (lo hi : Nat) (num : Int) :
-    (num = 1 → sameSignPos c lo hi num = .error .zeroDivision) ∧
-    (num = 0 → sameSignPos c lo hi num = .ok []) ∧
-    (num < 0 → sameSignPos c lo hi num = .error .assertion) := by
-  unfold sameSignPos stepVals
-  refine ⟨?_, ?_, ?_⟩ <;> intro h
-  · rw [if_neg (by omega), if_pos h]
-  · rw [if_pos (by omega)]; simp only []; rw [if_neg (by omega)]
-  · rw [if_pos (by omega)]; simp only []; rw [if_pos h]
-
-theorem sameSignNeg_small (c : Cfg) (lo hi : Nat) (num : Int) :
-    (num = 1 → sameSignNeg c lo hi num = .error .zeroDivision) ∧
-    (num = 0 → sameSignNeg c lo hi num = .ok []) ∧
-    (num < 0 → sameSignNeg c lo hi num = .error .assertion) := by
-  unfold sameSignNeg stepVals
-  refine ⟨?_, ?_, ?_⟩ <;> intro h
-  · rw [if_neg (by omega), if_pos h]
-  · rw [if_pos (by omega)]; simp only []; rw [if_neg (by omega)]; rfl
-  · rw [if_pos (by omega)]; simp only []; rw [if_pos h]
-
-/-- same-sign bounds: what the call returns for every value of `num` below 2 -/
-theorem outcome_same_sign' (c : Cfg) (hwf : c.WF) (k : Nat) (q : Params) (hub : q.userBounds = true) (lo hi : Nat)
-    (hr : resolveBounds c q = (lo, hi)) (h : SamePos c lo hi ∨ SameNeg c lo hi) :
-    (numOf c q = 1 → realSamplesF c (k + 1) q = .error .zeroDivision) ∧
-    (numOf c q = 0 → realSamplesF c (k + 1) q = .ok []) ∧
-    (numOf c q < 0 → realSamplesF c (k + 1) q = .error .assertion) := by
-  rcases h with h | h
-  · rw [rsF_pos c hwf k q hub lo hi hr h]
-    obtain ⟨a, b, d⟩ := sameSignPos_small c lo hi (numOf c q)
-    refine ⟨fun e => by rw [a e]; rfl, fun e => by rw [b e]; simp [Except.map, finish_nil], fun e => by rw [d e]; rfl⟩
-  · rw [rsF_neg c hwf k q hub lo hi hr h]
-    obtain ⟨a, b, d⟩ := sameSignNeg_small c lo hi (numOf c q)
-    refine ⟨fun e => by rw [a e]; rfl, fun e => by rw [b e]; simp [Except.map, finish_nil], fun e => by rw [d e]; rfl⟩
 
 /-- bounds straddling zero: errors of the split, by the sample counts given to the two sides -/
 theorem outcome_straddle' (c : Cfg) (hwf : c.WF) (p : Params) (hub : p.userBounds = true) (lo hi : Nat)
@@ -131,6 +94,30 @@ theorem bounded_main (c : Cfg) (hwf : c.WF) (p : Params) (h : Sane c p) :
     intro hs; exfalso; have := h.1; have := h.2.1; have := hs.2.2.2; omega
   · obtain ⟨L, qn, qp, e, r, s, z⟩ := main_straddle c hwf 0 p hub _ _ rfl h hlo hhi h1 h2
     exact ⟨L, qn, qp, e, r, s, fun _ => z⟩
+
+/-- Resolved bounds that are numbers with `lo < hi` and without a zero bound of the wrong sign: exactly one of
+`0 ≤ lo < hi` (patterns `+0 ≤ lo`), `lo < hi ≤ -0` (pattern of `hi` at least `-0`), `lo < 0 < hi`.  Excluded are
+NaN bounds, `lo = hi`, `lo > hi` (ValueError) and the two defective shapes `lo = -0.0 < hi`, `lo < hi = +0.0`. -/
+def Regime (c : Cfg) (p : Params) : Prop :=
+  SamePos c (resolveBounds c p).1 (resolveBounds c p).2 ∨ SameNeg c (resolveBounds c p).1 (resolveBounds c p).2 ∨
+  Straddle c (resolveBounds c p).1 (resolveBounds c p).2
+
+/-- every successful call with user bounds in a `Regime`: sorted, within the bounds, equally spaced; zero present when
+the bounds straddle zero and `include_zero` -/
+theorem range_main (c : Cfg) (hwf : c.WF) (p : Params) (hub : p.userBounds = true) (hreg : Regime c p)
+    (L : List Nat) (hL : realSamples c p = .ok L) :
+    ∃ qn qp, RangeOK c (resolveBounds c p).1 (resolveBounds c p).2 qn qp L ∧
+      (Straddle c (resolveBounds c p).1 (resolveBounds c p).2 → p.includeZero = true → ∃ z ∈ L, skey c z = 0) := by
+  obtain ⟨hlo, hhi⟩ := resolve_fl c hwf p
+  rcases hreg with h | h | h
+  · obtain ⟨qp, hq⟩ := (same_sign_range c hwf 1 p hub _ _ rfl (Or.inl h) hlo hhi L hL).1 h
+    refine ⟨0, qp, hq 0, ?_⟩
+    intro hs; exfalso; have := h.1; have := h.2; have := hs.1; have := hs.2.2.2; have := hwf.inf_sb; omega
+  · obtain ⟨qn, hq⟩ := (same_sign_range c hwf 1 p hub _ _ rfl (Or.inr h) hlo hhi L hL).2 h
+    refine ⟨qn, 0, hq 0, ?_⟩
+    intro hs; exfalso; have := h.1; have := h.2.1; have := hs.2.2.2; have := hwf.inf_sb; omega
+  · obtain ⟨qn, qp, r, z⟩ := straddle_range c hwf p hub _ _ rfl h hlo hhi L hL
+    exact ⟨qn, qp, r, fun _ => z⟩
 
 theorem regime_not_nan (c : Cfg) (hwf : c.WF) (lo hi : Nat) (h : SamePos c lo hi ∨ SameNeg c lo hi ∨ Straddle c lo hi) :
     isNaN c lo = false ∧ isNaN c hi = false := by
